@@ -170,6 +170,18 @@ func checkCacheKeyLayoutIn(c *Ctx, f *ssa.Function) (result *ssa.Return) {
 			for _, r2 := range referrers(x) {
 				cp, ok := r2.(*ssa.Call)
 				if !ok || callName(cp) != "builtin:copy" || cp.Call.Args[0] != ssa.Value(x) {
+					// any other use of a sub-slice of the key buffer (element stores through the alias, further
+					// slicing, ranging) can rewrite key bytes after they were laid out
+					switch y := r2.(type) {
+					case *ssa.DebugRef:
+					case *ssa.Call:
+						if n := callName(y); n != "pkg/utils.BytesToStringUnsafe" && n != "builtin:len" && n != "builtin:copy" {
+							c.fail("getMsgKey:name", instrPos(y), "a sub-slice of the key buffer is passed to %s", n)
+						}
+					case *ssa.Convert:
+					default:
+						c.fail("getMsgKey:name", instrPos(r2), "the key bytes are accessed again through a sub-slice of the buffer (%s): bytes of the name can be rewritten after the verbatim copy (e.g. case folding), so names that differ share a key", strings.TrimSpace(r2.String()))
+					}
 					continue
 				}
 				srcStr := exprStr(cp.Call.Args[1])
@@ -311,6 +323,47 @@ func runC04rest(c *Ctx, f *ssa.Function, keyRet *ssa.Return) {
 		return isF && strings.HasSuffix(k, "dns.Msg.Question")
 	}), "getMsgKey:guard:Question", instrPos(keyRet), "key only for exactly one question", "the question count is not checked before Question[0] is used as the key")
 
+	// the empty key (uncacheable message) never reaches the backend: every lookup / store / refresh call that takes
+	// the key is dominated by `len(key) != 0` (or sits behind the early return for the empty key)
+	{
+		get0 := c.fn(relCachePlugin, "", "getRespFromCache")
+		save0 := c.fn(relCachePlugin, "", "saveRespToCache")
+		for _, g := range p.funcsIn(relCachePlugin) {
+			if g.Parent() != nil {
+				continue // closures inherit the guard of the function that created them
+			}
+			gg := g
+			eachInstr(g, func(in ssa.Instruction) {
+				ci, ok := in.(*ssa.Call)
+				if !ok {
+					return
+				}
+				sc := staticCallee(ci)
+				if sc == nil || (sc != get0 && sc != save0) {
+					return
+				}
+				keyV := ci.Call.Args[0]
+				if _, isParam := keyV.(*ssa.Parameter); isParam {
+					return // the key is handed down; its guard is at the caller
+				}
+				nonEmpty := false
+				for _, gd := range guardsOfInstr(in) {
+					cm, ok := gd.asCmp()
+					if !ok {
+						continue
+					}
+					ln, isCall := cm.X.(*ssa.Call)
+					n, isC := constInt(cm.Y)
+					if isCall && callName(ln) == "builtin:len" && ln.Call.Args[0] == keyV && isC && n == 0 && (cm.Op == token.NEQ || cm.Op == token.GTR) {
+						nonEmpty = true
+					}
+				}
+				c.check(nonEmpty, "empty-key-bypass@"+funcName(gg)+"->"+sc.Name(), instrPos(in), "the cache is consulted only with a non-empty key",
+					"the cache is consulted with a possibly empty key: all uncacheable messages (other opcode, several questions, QR=1) share the entry \"\" and are answered with each other's replies")
+			})
+		}
+	}
+
 	// ---------------------------------------------------------------- R3
 	c.rule("R3", "lookup and every store of one Exec use the same key value; backend maps are keyed by the key itself", 3)
 	get := c.fn(relCachePlugin, "", "getRespFromCache")
@@ -322,6 +375,9 @@ func runC04rest(c *Ctx, f *ssa.Function, keyRet *ssa.Return) {
 	tr.throughParams = true
 	tr.throughFields = false
 	tr.stop = func(v ssa.Value) bool {
+		if _, isSlice := v.(*ssa.Slice); isSlice {
+			return true // a part of the key is not the key
+		}
 		cl, ok := v.(*ssa.Call)
 		return ok && staticCallee(cl) == f
 	}
@@ -384,11 +440,29 @@ func runC04rest(c *Ctx, f *ssa.Function, keyRet *ssa.Return) {
 		meth string
 	}{{get, "Get"}, {save, "Store"}} {
 		found := false
+		allParam := true
 		eachInstr(pair.fn, func(in ssa.Instruction) {
 			ci, ok := in.(*ssa.Call)
 			if !ok || !strings.HasSuffix(callName(ci), "pkg/cache.Cache).Get") && !strings.HasSuffix(callName(ci), "pkg/cache.Cache).Store") {
 				return
 			}
+			defer func() {
+				a := ci.Call.Args[1]
+				for {
+					if cv, ok := a.(*ssa.ChangeType); ok {
+						a = cv.X
+						continue
+					}
+					if cv, ok := a.(*ssa.Convert); ok {
+						a = cv.X
+						continue
+					}
+					break
+				}
+				if a != ssa.Value(pair.fn.Params[0]) {
+					allParam = false
+				}
+			}()
 			if !strings.HasSuffix(callName(ci), ")."+pair.meth) {
 				return
 			}
@@ -408,8 +482,12 @@ func runC04rest(c *Ctx, f *ssa.Function, keyRet *ssa.Return) {
 				found = true
 			}
 		})
-		c.check(found, "backend-key@"+pair.fn.Name(), pair.fn.Pos(), "the msgKey parameter is the backend key (type conversion only)",
-			"the backend is not addressed with the msgKey parameter itself")
+		c.check(found && allParam, "backend-key@"+pair.fn.Name(), pair.fn.Pos(), "every backend access uses the msgKey parameter itself (type conversion only)",
+			"the backend is addressed with something other than the msgKey parameter itself (e.g. a second lookup under a derived key): an answer stored for another question can be served")
+	}
+	// the dump loader stores under the dumped key verbatim (and rebuilds the entry from the dumped fields)
+	if rd := c.fn(relCachePlugin, "Cache", "readDump"); rd != nil {
+		checkDumpReaderFields(c, rd)
 	}
 	// shard maps are Go maps keyed by K: Lookup/MapUpdate use the key parameter itself
 	for _, name := range []string{"get", "set"} {
